@@ -8,6 +8,8 @@ source is not found — a refactor is never an alarm; the result then says `extr
   files      the file-name statics of font.rs / layer.rs / shared_types.rs
   writer     element and attribute-name string literals of glyph/serialize.rs, per element
   parser     element and attribute-name byte-string literals of glyph/parse.rs, per element
+  designspace  serde names of the designspace document structs (attributes `@x`, child elements), list wrappers,
+             RuleProcessing spellings (src/designspace.rs)
   misc       layerinfo keys (layer.rs), font-level guideline keys (guideline.rs), point types, smooth spelling
 
 The theorems of Norad/Props/C05.lean (`decide`) are about these tables, i.e. about what the code says NOW.
@@ -280,7 +282,49 @@ def sec_misc(repo):
             "def guidelineParserKeys : List String :=\n  " + strs(gp) + "\n")
 
 
-SECTIONS = [("fontinfo", sec_fontinfo), ("files", sec_files), ("writer", sec_writer), ("parser", sec_parser), ("misc", sec_misc)]
+DS_STRUCTS = ["DesignSpaceDocument", "Axis", "AxisMapping", "Rules", "Rule", "Substitution", "ConditionSet", "Condition",
+              "Source", "Instance", "Dimension"]
+
+
+def struct_rename(src, name):
+    m = re.search(r"((?:\s*#\[[^\]]*\]\s*)*)\s*(?:pub(?:\([a-z]+\))?\s+)?struct\s+" + re.escape(name) + r"\s*\{", src)
+    if not m:
+        raise NotFound("struct " + name)
+    r = re.search(r'#\[serde\([^\]]*?\brename\s*=\s*"([^"]+)"', m.group(1))
+    return r.group(1) if r else ""
+
+
+def sec_designspace(repo):
+    """designspace.rs: per struct the serde name of every field (`@x` = XML attribute x, otherwise a child element),
+    the list wrappers of `serde_from_field!`, the spellings of `RuleProcessing`"""
+    src = open(os.path.join(repo, "src", "designspace.rs")).read()
+    rows = []
+    for n in DS_STRUCTS:
+        fields = struct_fields(src, n)
+        if not fields:
+            raise NotFound("fields of " + n)
+        fr = []
+        for field, key, _ in fields:
+            is_attr = key.startswith("@")
+            fr.append("(%s, %s, %s)" % (lstr(field), lstr(key[1:] if is_attr else key), "true" if is_attr else "false"))
+        rows.append("(%s, %s, %s)" % (lstr(n), lstr(struct_rename(src, n)), llist(fr)))
+    wrappers = re.findall(r"^\s*serde_from_field!\(\s*(\w+)\s*,\s*(\w+)\s*,", src, flags=re.M)
+    if len(wrappers) < 4:
+        raise NotFound("serde_from_field! wrappers")
+    m = re.search(r"((?:\s*#\[[^\]]*\]\s*)*)\s*pub\s+enum\s+RuleProcessing\s*\{(.*?)\n\}", src, flags=re.S)
+    if not m:
+        raise NotFound("enum RuleProcessing")
+    variants = [v for v in re.findall(r"^\s*([A-Z]\w*)\s*,", m.group(2), flags=re.M)]
+    lower = re.search(r'rename_all\s*=\s*"lowercase"', m.group(1)) is not None
+    spellings = [v.lower() if lower else v for v in variants]
+    if not spellings:
+        raise NotFound("RuleProcessing variants")
+    return ("def dsFields : List (String × String × List (String × String × Bool)) :=\n  " + llist(rows) + "\n\n"
+            "def dsWrappers : List (String × String) :=\n  " + pairs(wrappers) + "\n\n"
+            "def dsProcessing : List String :=\n  " + strs(spellings) + "\n")
+
+
+SECTIONS = [("designspace", sec_designspace), ("fontinfo", sec_fontinfo), ("files", sec_files), ("writer", sec_writer), ("parser", sec_parser), ("misc", sec_misc)]
 
 HEADER = """/-!
 GENERATED by tools/extract_vocab.py from norad's Rust source (src/fontinfo.rs, src/font.rs, src/layer.rs,
